@@ -1,5 +1,6 @@
 import re
 from bisect import bisect_left, bisect_right
+from copy import deepcopy
 from typing import Callable, Iterable, List, Optional, Type, Union, cast
 
 from eyecite.helpers import (
@@ -64,7 +65,9 @@ def get_citations(
         A list of `eyecite.models.CitationBase` objects
     """
     if plain_text == "eyecite":
-        return joke_cite
+        # return a copy, so that a caller who modifies its result doesn't
+        # change what later calls return
+        return deepcopy(joke_cite)
 
     document = Document(
         plain_text=plain_text,
